@@ -47,6 +47,9 @@ func scenarioC08(rc *RunCtx) *Violation {
 	g := rc.G
 	p := GenProject(g, "/p")
 	o := GenOptions(g, p)
+	// With AllowOverwrite a build may replace its own inputs by its outputs, after which
+	// "the same inputs" no longer holds for repeated and sibling builds.
+	o.AllowOverwrite = false
 	if o.Inject {
 		p.Extra["src/inject.js"] = "export let injected = 'INJ';\nconsole.log('inject');\n"
 	}
@@ -165,6 +168,16 @@ func scenarioC08(rc *RunCtx) *Violation {
 		for j, r := range results {
 			c := MakeCanon(r, pi.Root)
 			if class, detail := ref.Diff(c); class != "" {
+				if debugOn {
+					fmt.Printf("REF warnings:\n  %s\nVARIANT warnings:\n  %s\n", strings.Join(ref.Warns, "\n  "), strings.Join(c.Warns, "\n  "))
+					fs := pi.Render()
+					for _, k := range sortedKeys(fs) {
+						if strings.HasSuffix(k, "m0.js") || strings.HasSuffix(k, "m3.js") {
+							fmt.Printf("--- %s ---\n%s\n", k, fs[k])
+						}
+					}
+					fmt.Printf("options: %s\n", o.String())
+				}
 				key := class
 				if strings.HasSuffix(class, "-order") {
 					key += ":" + orderKey(ref, c, class)
